@@ -235,6 +235,21 @@ def spaces(tier, seed):
     sp.append(Space("C3-tuplets", lambda: G.gen_C_tuplets(False), True, "six triplet eighths (divisions 3): every bracket and every pair of brackets"))
     sp.append(Space(bname("C3-tuplets-2voices"), blk(lambda: G.gen_C_tuplets(True)), True, btxt + "C3 with two quarters in voice 2"))
     sp.append(Space(bname("C4-slur-pairs"), blk(G.gen_C_slurpairs), True, btxt + "all pairs and triples of slurs over five notes in two voices"))
+    h0 = ("build order = for every onset whether the notes starting there are added to the part top voice first or bottom "
+          "voice first (all a part keeps of the order in which it was built); ")
+    sp.append(Space(bname("H1-voice-build-order-slurs"), blk(lambda: G.gen_H_slurs(False)), True,
+                    btxt + h0 + "two 1/4 measures (grid of eighths), voices 1 and 2 on one staff with a one-unit note at each of the "
+                    "4 onsets; slurs = every pair of different notes i, j with i written before j (inside a voice, between the "
+                    "voices, inside a measure, over the barline: 28); every single slur and every pair of slurs (pairs sharing a "
+                    "note in both attachment orders) x all 2^4 build orders; plus the cores without the note of voice 1 at onset "
+                    "0 / 2 / 0 and 2 (voice 1 enters after voice 2 in the measure) x build order {all top first, all bottom first}"))
+    sp.append(Space(bname("H1-voice-build-order-slur-triples"), blk(lambda: G.gen_H_slurs(True)), True,
+                    btxt + h0 + "the full 8-note core of H1, every set of three of the 28 slurs, all notes added bottom voice first"))
+    sp.append(Space(bname("H2-voice-build-order-tuplets"), blk(G.gen_H_tuplets), True,
+                    btxt + h0 + "two 1/4 measures, divisions 3, voices 1 and 2 (staff = voice) with six triplet eighths each; tuplet "
+                    "brackets inside a voice from note i to note i+1..i+3 (inside a measure and over the barline: 24); every single "
+                    "bracket and every pair (pairs sharing a note in both attachment orders) x build order {all top first, all bottom "
+                    "first, bottom first in measure 1 only, bottom first in measure 2 only}"))
     c5 = ("two 1/4 measures, grid times 0..3; at every grid time any subset of the three constant-direction families "
           "{loudness (p, dolce, f), tempo (adagio, allegro), articulation (legato, staccato)} gets a new direction (all 8^4-1 "
           "assignments: every family changes alone / together with one / with both others, at first and later occurrences; "
